@@ -554,6 +554,10 @@ class Case:
         else:
             b = self.right_operand_for(a.slots[-1], len(a.slots) - 1)
             how = rng.choice(["action", "action", "Action", "Action", "mul", "matmul", "call"] if b.vec else ["action", "Action", "Action", "call"])
+            if how == "call" and type(a.ufl) is Form and not isinstance(b.ufl, ufl.core.expr.Expr):
+                # Form.__call__ is not BaseForm.__call__: it REPLACES the arguments by the given expressions
+                # (documented), so calling a Form with a Matrix / Cofunction / base form is not an action at all
+                how = "action"
         slots = tuple(a.slots[:-1]) + tuple(b.slots[1:])
 
         def fn(ov):
@@ -994,6 +998,15 @@ def has_degenerate_form(o, depth=0):
     return False
 
 
+def raise_mechanism(obj):
+    """Why arguments() / coefficients() of a base form raise, where the monitor can tell."""
+    if type(obj) is FormSum:
+        odd = sorted({tname(c) for c in obj.components() if not isinstance(c, ufl.form.BaseForm)})
+        if odd:
+            return "FormSum-component-is-not-a-BaseForm:" + "+".join(odd)
+    return tname(obj)
+
+
 def check_arguments(case, node, obj, fam, tag, E_):
     ctx, m = case.ctx, case.m
     if node.slots is None:
@@ -1008,6 +1021,11 @@ def check_arguments(case, node, obj, fam, tag, E_):
         ctx.count("arguments_raises")
         node.bad = True  # cannot be judged and is not used as an operand any more
         ctx.covered("arguments_raises", f"{sig_ops(node)}: {type(ex).__name__}: {str(ex)[:60]}")
+        # the object was built by UFL itself from well-formed operands and the model knows its slots: it does not
+        # "report arguments according to argument contraction", it cannot report them at all
+        ctx.violation(f"C28/{fam}/{tag}arguments-raise/{type(ex).__name__}/{raise_mechanism(obj)}",
+                      f"{describe(node)}: arguments() raises {type(ex).__name__}: {str(ex)[:100]}",
+                      detail(case, node, {"expected_slots": [str(m.slot_space(s)) for s in node.slots]}))
         return
     ctx.count("arguments_checked")
     want = [m.slot_space(s) for s in node.slots]
@@ -1034,8 +1052,12 @@ def check_coefficients(case, node, obj, fam, tag, E_, Emag):
         coefs = obj.coefficients()
     except Exception as ex:
         ctx.count("coefficients_raises")
+        already = node.bad
         node.bad = True
         ctx.covered("coefficients_raises", f"{sig_ops(node)}: {type(ex).__name__}: {str(ex)[:60]}")
+        if not already:
+            ctx.violation(f"C28/{fam}/{tag}coefficients-raise/{type(ex).__name__}/{raise_mechanism(obj)}",
+                          f"{describe(node)}: coefficients() raises {type(ex).__name__}: {str(ex)[:100]}", detail(case, node))
         return
     ctx.count("coefficients_checked")
     got = set()
